@@ -34,11 +34,12 @@ SupLit(f, ctx) ==
   \/ f.k = "not" /\ f.f.k = "eq"
   \/ f.k = "cmp" /\ SupExpr(f.l, ctx) /\ SupExpr(f.r, ctx) /\ (HasFluent(f.l) \/ HasFluent(f.r))
 
-\* members of an and/or: literals, nested and/or, forall whose body is and/or
+\* members of an and/or: literals, nested non-empty and/or, forall whose body is
+\* and/or  (an empty member "()" inside a connective is outside the fragment)
 RECURSIVE SupMember(_, _, _)
 SupMember(f, ctx, inForall) ==
   \/ SupLit(f, ctx)
-  \/ f.k \in {"and", "or"} /\ \A i \in DOMAIN f.fs : SupMember(f.fs[i], ctx, inForall)
+  \/ f.k \in {"and", "or"} /\ f.fs # <<>> /\ \A i \in DOMAIN f.fs : SupMember(f.fs[i], ctx, inForall)
   \/ /\ f.k = "forall" /\ ~inForall
      /\ f.f.k \in {"and", "or"}
      /\ \A i \in DOMAIN f.f.fs : SupMember(f.f.fs[i], ctx, TRUE)
